@@ -39,7 +39,7 @@ def insert_core(ctx, R1="C08.R1", R2="C08.R2", R3="C08.R3", R4="C08.R4") -> None
     nd = prog.cls(f"{BASE}.NodeData")
     file = hugr.module.path
     ih_o, _, _ = ctx.locate(f"{BASE}.Hugr.insert_hugr")
-    ih = ctx.cfn(f"{BASE}.Hugr.insert_hugr")
+    ih = ctx.cfn(f"{BASE}.Hugr.insert_hugr", accessors=True)     # hugr.num_out_ports(n) is hugr[n]._num_outs, hugr.links() its generator
     src_p, par_p = ih.args.args[1].arg, ih.args.args[2].arg
     loops = [n for n in ast.walk(ih) if isinstance(n, ast.For)]
     node_loops = []
@@ -68,7 +68,7 @@ def insert_core(ctx, R1="C08.R1", R2="C08.R2", R3="C08.R3", R4="C08.R4") -> None
         ctx.check(a is not None and u(a) == expr, R1, f"Hugr.insert_hugr: {fname} transferred", file, add.lineno,
                   f"the copy of a node must be created with {fname}={expr} of the source node", add, expected=expr, found=u(a))
     # parent: on every path through the loop body the copy hangs under mapping[parent] when the source node has one, else under `parent`
-    ok = True
+    ok = all_add = True
     found = []
     seen = {True: False, False: False}
     for p in summaries(nl.body):
@@ -76,7 +76,7 @@ def insert_core(ctx, R1="C08.R1", R2="C08.R2", R3="C08.R3", R4="C08.R4") -> None
             continue
         effs = p.find_effect(f"{mp}[{nv}] = self.add_node(E_op, E_parent, E_outs, E_meta)") or p.find_effect(f"{mp}[{nv}] = self._add_node(E_op, E_parent, E_outs, E_meta)")
         if len(effs) != 1:
-            ok = False
+            ok = all_add = False
             found.append("no single add_node on: " + p.describe())
             continue
         par = effs[0][2]["E_parent"]
@@ -104,7 +104,8 @@ def insert_core(ctx, R1="C08.R1", R2="C08.R2", R3="C08.R3", R4="C08.R4") -> None
         ctx.check(f.name in covered, R1, f"NodeData.{f.name}: accounted for", nd.module.path, f.node.lineno,
                   f"NodeData field {f.name} is neither transferred by insert_hugr nor on the derived list: the embedded copy would lose it", f.node,
                   detail=DERIVED.get(f.name, "transferred"))
-    no_filter = not any(isinstance(x, (ast.Continue, ast.Break)) for x in ast.walk(nl)) and not any(isinstance(x, ast.If) for x in nl.body)
+    # every way through the loop body that does not raise creates the copy (decided on the path summaries above)
+    no_filter = not any(isinstance(x, (ast.Continue, ast.Break)) for x in ast.walk(nl)) and all_add
     ctx.check(no_filter, R1, "Hugr.insert_hugr: no node skipped", file, nl.lineno, "the copy loop must not skip nodes", nl)
     rets = [r for r in ast.walk(ih) if isinstance(r, ast.Return)]
     ctx.check(len(rets) == 1 and u(rets[0].value) == mp, R1, "Hugr.insert_hugr: returns the mapping", file, ih_o.lineno, "", ih_o)
